@@ -493,6 +493,27 @@ def check_defaults(acc, pendulum):
         want = ["ValueError", before, "Sunday 28 August 2016, 28th", 28]
         if got != want:
             acc.mismatch("format", "default-locale-after-rejected-set_locale", {"kind": "def", "text": bad, "fmt": "set_locale"}, got, want)
+    # localized names are literal text: a name whose final '.' is replaced by another character is not that name
+    from pendulum.locales.locale import Locale
+    for loc in ("fr", "de", "es", "nl", "pt_br", "da", "nb", "ru"):
+        L = Locale.load(loc)
+        for key, fmt, mk in (("months.abbreviated", "D {} YYYY", "MMM"), ("days.abbreviated", "{} D MM YYYY", "ddd")):
+            names = L.translation(key) or {}
+            for idx, name in sorted(names.items())[:12]:
+                if not isinstance(name, str) or "." not in name:
+                    continue
+                bad = name.replace(".", "X")
+                text = fmt.format(bad).replace("D", "5").replace("MM", "03").replace("YYYY", "2024")
+                acc.c["evaluations"] += 1
+                try:
+                    r = pendulum.from_format(text, fmt.format(mk), locale=loc)
+                    got = f"accepted {r.to_date_string()}"
+                except ValueError:
+                    got = "ValueError"
+                except Exception as e:  # noqa: BLE001
+                    got = f"raises {type(e).__name__}"
+                if got != "ValueError":
+                    acc.mismatch("from_format", "non-matching/name-with-dot", {"kind": "def", "text": text, "fmt": fmt.format(mk), "loc": loc}, got, "ValueError")
     # the public entry point: its 'now' is the current time IN THE REQUESTED ZONE.  The two zones are 26 hours apart, so at
     # any moment at least one of them is on another calendar day than the machine's zone; the clock is read before and
     # after the call and the case only judged when no midnight fell in between (the one place the real clock is consulted)
